@@ -12,6 +12,22 @@ let handle (x : sexp) : Stdlib.String.t =
       (match best_layout evs_dummy big_fuel big_fuel (boolv smart) (zint w) (zint rw) (doc_of d) with
        | None -> "FUEL"
        | Some out -> "S " ^ stream_out out ^ " | R " ^ str_out (default_render is_space out))
+  | L [A "uni"; L pr; L sp; L wd; L lb] ->
+      t_printable := mk_table pr; t_space := mk_table sp; t_word := mk_table wd; t_linebreak := mk_table lb; "ok"
+  | L [A "pformat"; indent; w; rw; depth; maxlen; sort; v] ->
+      (match pformat_model printable is_space_u is_word_u is_linebreak big_fuel big_fuel (val_of v)
+               (zint indent) (zint w) (zint rw) (optz depth) (zint maxlen) (boolv sort) with
+       | None -> "FUEL"
+       | Some s -> "R " ^ str_out s)
+  | L [A "str_to_lines"; bytes; maxlen; q; L s; pat] ->
+      (match str_to_lines printable is_space_u is_word_u big_fuel (boolv bytes) (zint maxlen)
+               (n_of_int (int_of_string (atom q))) (cps s)
+               (match pat with A "path" -> Some PPath | _ -> None) with
+       | None -> "FUEL"
+       | Some l -> "L " ^ String.concat " " (List.map (fun x -> "[" ^ str_out x ^ "]") l))
+  | L [A "escape"; bytes; q; L s] ->
+      "E " ^ str_out (escape_for_quote printable (boolv bytes) (n_of_int (int_of_string (atom q))) (cps s))
+  | L [A "quote"; L s] -> "Q " ^ string_of_int (int_of_n (quote_strategy (cps s)))
   | L [A "dispatch"; L mro; L acc; L ops] ->
       let mt = table_of mro and at = table_of acc in
       let mrof c = let ci = int_of_nat c in
